@@ -217,7 +217,8 @@ def check(case) -> Verdict:
                             'probe-file-actor' if c08_render.file_actor(case['act']) else case['act']['c']))
     labels.append('file-order:' + ('canonical' if list(case['order']) == ref.EXEC_ORDER else
                                    'split' if len(case['order']) > len(ref.EXEC_ORDER) else 'permuted'))
-    files = c08_render.render_files(case)
+    here_dirs = {}
+    files = c08_render.render_files(case, here_dirs)
     if len([fn for fn in files if fn.endswith('.xly')]):
         labels.append('layout:included-files')
         labels.extend(sorted(set('layout:include-' + sp.get('m', 'plain') for sp in case.get('inc') or [])))
@@ -267,7 +268,7 @@ def check(case) -> Verdict:
                  'result': os.path.join(sds or '/SDS', 'result'), 'cd': os.path.join(sds or '/SDS', 'act')}
         out = None
         if val.error is None:
-            out = ref.evaluate(case, roots, rd)
+            out = ref.evaluate(case, roots, rd, here_dirs=here_dirs)
         observed_files = {}
         observed_dirs = {}
         observed_abs = {}
@@ -472,7 +473,7 @@ def check(case) -> Verdict:
     if diff is not None:
         cut = (ref.first_cleanup_item_needing(case, out.table, set(out.skipped_defs))
                if (out.stop is not None and out.stop['phase'] != 'cleanup') else None)
-        if cut is not None and mismatch(ref.evaluate(case, roots, rd, cleanup_cut=cut)) is None:
+        if cut is not None and mismatch(ref.evaluate(case, roots, rd, cleanup_cut=cut, here_dirs=here_dirs)) is None:
             # defect model KF-C08-2, second form: the crash of the cleanup instruction is not reported (the earlier
             # failure is), but [cleanup] ends there: the observations equal those of the case with [cleanup] given up
             # at the first instruction that resolves a symbol whose definition was skipped
